@@ -83,6 +83,9 @@ func (s *Server) HandlePutService(w http.ResponseWriter, r *http.Request) {
 
 	service.Metadata = *metadata
 
+	previous := Service{}
+	hadPrevious := s.Store.Get(fmt.Sprintf("/services/%s", r.PathValue("id")), &previous) == nil
+
 	err = s.Store.Put(fmt.Sprintf("/services/%s", r.PathValue("id")), &service)
 	if err != nil {
 		s.logger.Printf("ERROR: %s", err)
@@ -91,6 +94,9 @@ func (s *Server) HandlePutService(w http.ResponseWriter, r *http.Request) {
 	}
 
 	s.idpConfigMu.Lock()
+	if hadPrevious && previous.Metadata.EntityID != service.Metadata.EntityID {
+		delete(s.serviceProviders, previous.Metadata.EntityID)
+	}
 	s.serviceProviders[service.Metadata.EntityID] = &service.Metadata
 	s.idpConfigMu.Unlock()
 
